@@ -259,6 +259,16 @@ def _pat_match(pattern, p):
     return all(c == "*" and isinstance(q, int) or c == q for c, q in zip(pattern, p))
 
 
+def model_after_update(node, asg, casg, offered=None, top_changed=False):
+    """model assignment after an update: old values overridden by the constraint; choices below a
+    switch whose index may be tagged UnknownChange are dropped (they may be resampled: documented trigger)
+    and are then read back from the new trace as new random choices"""
+    rs = resample_prefixes(node, offered if offered is not None else casg, top_changed)
+    masg = {p: v for p, v in asg.items() if not any(_pat_match(pre, p) for pre in rs)}
+    masg.update(casg)
+    return masg
+
+
 def constraint_from_picks(run, picks, extra_paths=()):
     """constraint assignment over existing (visited) addresses, values in the support"""
     paths = list(run.visited) + [p for p in extra_paths if p not in run.visited]
